@@ -445,6 +445,13 @@ def _run_readonly(rec, spec, typed):
             yield "find_first(data)", lambda d=d: tree.find_first(d)
             yield "data in tree", lambda d=d: d in tree
             yield "tree[data]", lambda d=d: tree[d]
+        for absent in ("no-such-data", 987654321):
+            yield "find_first(absent)", lambda a=absent: tree.find_first(a)
+            yield "find(absent data_id)", lambda a=absent: tree.find(data_id=a)
+            yield "find_all(absent)", lambda a=absent: tree.find_all(a)
+            yield "absent in tree", lambda a=absent: a in tree
+            yield "tree[absent]", lambda a=absent: tree[a]
+            yield "node.find_first(absent)", lambda a=absent: first_inner.find_first(a)
         yield "find_all(match,max_results=1)", lambda: tree.find_all(match=".*", max_results=1)
         for m in IterMethod:
             yield f"iterator({m.value})", lambda m=m: list(tree.iterator(m))
